@@ -47,7 +47,7 @@ MUTANTS = [
     M("c01-dtype-info-swapped", "C01", "break", [(CORE, "info = torch.finfo if dtype.is_floating_point else torch.iinfo", "info = torch.iinfo if dtype.is_floating_point else torch.finfo")], "C01.R3"),
     M("c01-dequant-no-upcast-int", "C01", "break", [(QB, "            dqt = t._scale * t._data\n", "            dqt = t._scale * t._data.to(torch.int32) / 1\n")], "C01.R4"),
     M("c01-dequant-float-noscale", "C01", "break", [(QB, "dqt = t._scale * t._data.to(t._scale.dtype)", "dqt = t._data.to(t._scale.dtype)")], "C01.R4"),
-    M("c01-activation-axis0", "C01", "break", [(QACT, "return SymmetricQuantizer.apply(t, qtype, None, scale)", "return SymmetricQuantizer.apply(t, qtype, 0, scale)")], "C01.R5"),
+    M("c01-activation-axis0", "C01", "break", [(QACT, "return SymmetricQuantizer.apply(t, qtype, None, scale.clone())", "return SymmetricQuantizer.apply(t, qtype, 0, scale.clone())")], "C01.R5"),
     M("c01-weight-scale-other-axis", "C01", "break", [(QW, "        scale = optimizer(t, qtype.bits, axis)\n        return SymmetricQuantizer.apply(t, qtype, axis, scale)", "        scale = optimizer(t, qtype.bits, axis)\n        return SymmetricQuantizer.apply(t, qtype, 0 if axis is not None else None, scale)")], "C01.R5"),
     M("c01-refactor-method-forms", "C01", "refactor", [(SYM, "data = torch.round(data)", "data = data.round()"), (SYM, "torch.clamp(data, min=info.min, max=info.max)", "data.clamp(info.min, info.max)")]),
     M("c01-refactor-inline-info", "C01", "refactor", [(SYM, "        info = dtype_info(qtype.dtype)\n", ""), (SYM, "min=info.min, max=info.max", "min=dtype_info(qtype.dtype).min, max=dtype_info(qtype.dtype).max")]),
